@@ -273,7 +273,7 @@ def query_list(draw, atoms, conds, lo=3, hi=6, outside=True, consts=True):
             A, B = draw(st.sampled_from([(Ai, fm.Not(Bi)), (fm.And(Ai, x), fm.Not(Bi)),
                                          (fm.Not(Bi), fm.Not(Ai)), (x, fm.Not(Ai))]))
         elif kind == "out":
-            o = fm.V(OUTSIDE)
+            o = fm.V(draw(st.sampled_from([OUTSIDE, OUTSIDE, "y8", "w7"])))
             x = draw(formula(atoms, SHAPES_NOCONST, consts=False))
             y = draw(formula(atoms, SHAPES_NOCONST, consts=False))
             A, B = draw(st.sampled_from([(fm.And(x, o), y), (x, fm.Or(y, o)), (o, y), (x, o),
